@@ -260,7 +260,11 @@ fn gen_value(rng: &mut StdRng, decimals: usize) -> f64 {
         5 => rng.gen_range(0..2_000_000) as f64,
         6 => rng.gen_range(0.0..1.0),
         7 => rng.gen_range(0.0..100_000.0),
-        8 => [0.1 + 0.2, 1.005, 2.675, 1234.5, 999.9995, 0.4, 0.05, 99.5, 9.995e10][rng.gen_range(0..9)],
+        8 => [
+            0.1 + 0.2, 1.005, 2.675, 1234.5, 999.9995, 0.4, 0.05, 99.5, 9.995e10,
+            // mantissas that round up to 10 in scientific formats, values that round up to the next power of ten
+            9.996, 99960.0, 0.00099995, 9.5, 99.95, 0.995, 9.9999999, 0.0995, 999.5,
+        ][rng.gen_range(0..18)],
         _ => rng.gen_range(0.0..1e9),
     };
     sign * v
